@@ -747,7 +747,7 @@ func TestVerif_C17_rerun(t *testing.T) {
 	defer kit.S().Flush()
 	defer kit.CleanupScratch()
 	env := &c17Env{h: newVJHub(vjOpts{})}
-	defer func() { time.Sleep(50 * time.Millisecond); env.h.close() }()
+	defer func() { time.Sleep(400 * time.Millisecond); env.h.close() }()
 	run := func(c c17RerunCase, fail func(format string, args ...any)) {
 		kit.Journal(c)
 		problem, infra, inconcl := env.rerun(c)
